@@ -345,6 +345,17 @@ pub fn gen_c14(rng: &mut Rng, _tier: Tier) -> NetProgram {
         if rng.chance(1, 2) {
             prog.modules[i].tasks = crate::asy::gen_tasks_c13(rng);
         }
+        // a joined task that is still pending at the end makes tear-down return an error: the bracket must still close
+        if rng.chance(1, 8) {
+            prog.modules[i].tasks.push(crate::asy::TaskSpec { local: false, join: 1, steps: vec![crate::asy::AStep::Wait] });
+        }
+        // now and then a large burst of same-instant emissions from one handler
+        if rng.chance(1, 10) {
+            let g = rng.below(2) as u32;
+            let n = 21 + rng.usize(40);
+            let acts: Vec<Act> = (0..n).map(|_| Act::Send { gate: g, delay_ns: 0, body: 0 }).collect();
+            prog.modules[i].beats.push(Beat { at_ns: t + SEC, acts });
+        }
     }
     prog
 }
@@ -607,6 +618,10 @@ pub fn gen_c13(rng: &mut Rng, tier: Tier) -> NetProgram {
     if rng.chance(1, 3) {
         let v = rng.usize(nmod);
         let t = crate::asy::panicking_task(rng);
+        // a still-pending try_join task registered before the panicking one must not hide it
+        if rng.chance(1, 2) {
+            prog.modules[v].tasks.push(crate::asy::TaskSpec { local: rng.chance(1, 3), join: 2, steps: vec![crate::asy::AStep::Wait] });
+        }
         prog.modules[v].tasks.push(t);
     }
     prog
